@@ -23,7 +23,7 @@ PROPS = {
     'C15': dict(families=[], bounded='pvf.bounded.c15', level='other'),
     'C16': dict(families=[], bounded='pvf.bounded.c16', level='other'),
     'C17': dict(families=[], bounded='pvf.bounded.c17', level='other'),
-    'C18': dict(families=[], bounded='pvf.bounded.c18', level='other'),
+    'C18': dict(families=['config'], bounded='pvf.bounded.c18', level='proof'),
     'C19': dict(families=[], bounded='pvf.bounded.c19', level='other'),
 }
 
